@@ -1,6 +1,7 @@
 # Registry of property checks for /verif/check.  quick = (cases, timeout_s); thorough = (shards, cases_per_shard, timeout_s)
 def props(P):
     sim = lambda test, q, th, **kw: P("sim", test, q, th, **kw)
+    store = lambda test, q, th, **kw: P("storepbt", test, q, th, **kw)
     return {
         "C01": sim("TestC01", (1200, 300), (16, 2500, 1500)),
         "C02": sim("TestC02", (400, 300), (16, 1500, 1800)),
@@ -14,4 +15,6 @@ def props(P):
         "C10": sim("TestC10", (1200, 300), (16, 2500, 1500)),
         "C11": sim("TestC11", (300, 300), (16, 1200, 1800), regress="TestRegressC11"),
         "C14": sim("TestC14", (600, 300), (16, 2500, 1800)),
+        "C16": store("TestC16", (400, 300), (16, 1200, 2400)),
+        "C17": store("TestC17", (500, 300), (16, 2500, 2400)),
     }
